@@ -41,6 +41,8 @@ def run(ctx, chk):
     w4(fb, chk)
     w5(fb, chk)
     w6(fb, chk)
+    from . import xlist
+    xlist.apply("C01", fb, chk)
     n = lambda r: len([i for i in chk.instances if i[0] == r])
     chk.floor("W1", n("W1"), 29)
     chk.floor("W2", n("W2"), 100)
